@@ -167,3 +167,19 @@ Proof.
   - intros q _ _ _. exists (- (1))%Q. split; [reflexivity|]. discriminate.
   - intros q -> Hq. cbn in E. apply Qeq_bool_iff in E. rewrite Hq in E. discriminate E.
 Qed.
+
+(* ce: for every non-constant objective a holder i0 of its minimum and a holder i1 of its maximum get +inf (same table hypothesis) *)
+Theorem C13_ce_extremes_infinite :
+  forall (feq : eq -> eq -> bool) (lg : list (eq * eq)),
+    (forall arg y, lookup_log (X := EQx) feq lg arg = Some y ->
+       (forall q, arg = Fin q -> (0 < q)%Q -> (q <= 1)%Q -> exists l, y = Fin l /\ (l <= 0)%Q) /\
+       (forall q, arg = Fin q -> (q == 0)%Q -> y = NInf)) ->
+    forall (F : list (list eq)) m j d, fin_matrix F m -> (0 < m)%nat -> length (hd [] F) = m -> (j < m)%nat ->
+      (exists a b, In a (col (X := EQx) F j) /\ In b (col (X := EQx) F j) /\ eltb a b = true) ->
+      calc_crowding_entropy (X := EQx) feq lg F = Some d ->
+      exists i0 i1, (i0 < length F)%nat /\ (i1 < length F)%nat /\
+        (forall i, (i < length F)%nat -> fle (nth i0 (col (X := EQx) F j) ENaN) (nth i (col (X := EQx) F j) ENaN) /\
+                                         fle (nth i (col (X := EQx) F j) ENaN) (nth i1 (col (X := EQx) F j) ENaN)) /\
+        nth i0 d ENaN = PInf /\ nth i1 d ENaN = PInf.
+Proof. exact ce_extremes_infinite. Qed.
+Print Assumptions C13_ce_extremes_infinite.
